@@ -114,3 +114,71 @@ package main
 //@   requires ctx != nil && request != nil && snowflake != nil && snowflake.registered && snowflake.natType == request.natType && snowflake.id == request.id && request.offerChannel != nil
 //@   at call Remove assert {removed-from-the-pool-it-was-filed-in} held(&ctx.snowflakeLock) && ((request.natType == NATUnrestricted) <==> (unbox(arg0, *SnowflakeHeap) == ctx.snowflakes)) && unbox(arg0, *SnowflakeHeap) == snowflake.inHeap && arg1 == snowflake.index
 //@   ensures {answers-its-poll-exactly-once} sends(request.offerChannel) + closes(request.offerChannel) == old(sends(request.offerChannel)) + old(closes(request.offerChannel)) + 1
+//
+// ---- routing (C02), completion (C04) ----
+//@ immutable IPC.ctx, BrokerContext.snowflakes, BrokerContext.restrictedSnowflakes, BrokerContext.metrics, BrokerContext.proxyPolls, Snowflake.offerChannel, Snowflake.answerChannel, Snowflake.id, Snowflake.natType, Snowflake.proxyType, Snowflake.clients, ProxyPoll.offerChannel, ProxyPoll.natType, ProxyPoll.id
+//@ ghost var bridgeOK bool
+//@ ghost var patternOK bool
+//
+// GetBridgeInfo: the entry stored under exactly the fingerprint asked for, or ErrBridgeNotFound.
+//@ func (h *bridgeListHolder) GetBridgeInfo(fingerprint bridgefingerprint.Fingerprint) (info BridgeInfo, err error)
+//@   props C02
+//@   flag nosafety
+//@   requires h != nil
+//@   ensures {unknown-fingerprint-is-an-error} err == nil || err == ErrBridgeNotFound
+//@   ensures {answers-from-the-entry-of-that-fingerprint} calls(RLock) == 1 && calls(RUnlock) == 1
+//
+// RequestOffer: the poll is registered with the caller's id / NAT type / load, and the value returned is the one
+// received on this poll's private channel.
+//@ func (ctx *BrokerContext) RequestOffer(id string, proxyType string, natType string, clients int) (offer *ClientOffer)
+//@   props C02, C04
+//@   flag concurrent nosafety paired-send=Broker paired-recv=Broker$1
+//@   requires ctx != nil
+//@   at call send assert {registers-this-poll} ch == ctx.proxyPolls && value != nil && fresh(value) && value.id == id && value.proxyType == proxyType && value.natType == natType && value.clients == clients && fresh(value.offerChannel)
+//@   ensures {waits-on-its-own-channel-only} sends(ctx.proxyPolls) == old(sends(ctx.proxyPolls)) + 1
+//
+// ClientOffers: a client naming an unknown bridge is never matched; the offer goes to the matched entry's private
+// channel; the answer returned is the one received on that entry's answer channel; after a match the entry is
+// unregistered before the matching lock is released for the last time.
+//@ func (i *IPC) ClientOffers(arg messages.Arg, response *[]byte) (err error)
+//@   props C02, C03, C04
+//@   flag concurrent nosafety paired-send=Broker$1 lifetime=After
+//@   requires i != nil && i.ctx != nil && response != nil
+//@   at entry ghost bridgeOK = false
+//@   after call GetBridgeInfo ghost bridgeOK = (ret1 == nil)
+//@   at call matchSnowflake assert {bridge-known-before-any-match} bridgeOK && arg1 == offer.natType
+//@   at call send assert {offer-handed-to-the-matched-entry-only} ch == snowflake.offerChannel && value == offer && calls(matchSnowflake) == 1
+//@   at call sendClientResponse assert {answer-is-the-one-received-on-that-entrys-channel} arg0.Answer != "" ==> arg0.Answer == answer
+//@   at call Unlock assert {unregistered-when-the-matching-lock-is-released} held(&i.ctx.snowflakeLock) ==> !has(i.ctx.idToSnowflake, snowflake.id)
+//@   ensures {at-most-one-offer-sent} calls(matchSnowflake) <= 1
+//
+// ProxyAnswers: the answer is routed by session id: the only send is on the answer channel of the entry registered
+// under the id decoded from the request, with the decoded answer.
+//@ func (i *IPC) ProxyAnswers(arg messages.Arg, response *[]byte) (err error)
+//@   props C02, C04
+//@   flag concurrent nosafety
+//@   requires i != nil && i.ctx != nil && response != nil
+//@   at call send assert {routed-by-session-id} ch == snowflake.answerChannel && value == answer && success
+//
+// ProxyPolls: a proxy whose relay pattern is not acceptable is never registered; the relay URL handed out is the one
+// configured for the offer's bridge fingerprint.
+//@ func (i *IPC) ProxyPolls(arg messages.Arg, response *[]byte) (err error)
+//@   props C02, C04, C06
+//@   flag nosafety
+//@   requires i != nil && i.ctx != nil && response != nil
+//@   at entry ghost patternOK = false
+//@   after call CheckProxyRelayPattern ghost patternOK = ret0
+//@   at call CheckProxyRelayPattern assert {pattern-checked-as-announced} arg1 == relayPattern && arg2 == !relayPatternSupported
+//@   at call RequestOffer assert {only-acceptable-patterns-are-registered} patternOK && arg1 == sid && arg3 == natType && arg4 == clients
+//@   at call EncodePollResponseWithRelayURL assert {explicit-rejection-or-the-offers-bridge} (!patternOK ==> arg0 == "" && !arg1 && arg3 == "" && arg4 == "incorrect relay pattern") && (patternOK ==> arg1 && arg3 == info.WebSocketAddress && arg2 == offer.natType && arg4 == "")
+//@   ensures {rejected-pattern-gets-no-client} !patternOK ==> calls(RequestOffer) == 0
+//
+// LoadBridgeInfo installs a list: on success the holder's map IS the newly parsed map (a bridge absent from the new
+// list is forgotten), on failure the old list stays.
+//@ func (h *bridgeListHolder) LoadBridgeInfo(reader io.Reader) (err error)
+//@   props C02
+//@   flag nosafety
+//@   requires h != nil
+//@   loop 1 invariant h.bridgeInfo == old(h.bridgeInfo)
+//@   ensures {replaces-the-list} err == nil ==> fresh(h.bridgeInfo)
+//@   ensures {failed-load-keeps-the-old-list} err != nil ==> h.bridgeInfo == old(h.bridgeInfo)
